@@ -56,7 +56,13 @@ def evaluate(prop, cases, procs):
         if isinstance(i, tuple) and i and i[0] == "HARNESS":
             recs.append({"case": c, "impl": i, "model": m, "agree": False, "oracle": ("harness", i[1]), "line": ln})
             continue
-        agree = prop.compare(c, i, m) if hasattr(prop, "compare") else (i == m)
+        # the wire format cannot tell "no list" from "one empty list"
+        i_n = [] if i == [[]] else i
+        m_n = [] if m == [[]] else m
+        try:
+            agree = prop.compare(c, i_n, m_n) if hasattr(prop, "compare") else (i_n == m_n)
+        except Exception as e:
+            agree = False
         try:
             orc = prop.oracle(c, i)
         except Exception as e:
